@@ -62,8 +62,12 @@ class Scenario:
 
 
 def gen_scenario(rng, n, epochs=2, ops_per_rank=6, sizes=(0, 8, 100, 600), ttl=2, maxfan=2, hprog=20, hcb=5, hbc=0,
-                 p_bcast=10, p_mcast=5, p_progress=8, p_mask=5, p_cb=5, p_wait=0, tail=True, uneven=True):
+                 p_bcast=10, p_mcast=5, p_progress=8, p_mask=5, p_cb=5, p_wait=0, tail=True, uneven=True, fstate=0, subcomm=0):
     params = {"maxfan": maxfan, "hprog": hprog, "hcb": hcb, "hbc": hbc}
+    if fstate:
+        params["fstate"] = 1      # every message uses a function object with 8 bytes of state
+    if subcomm:
+        params["subcomm"] = 1     # ygm::comm is built on a communicator with reversed rank order
     ops = []
     uid = [1 << 20]
 
@@ -238,7 +242,14 @@ _H = re.compile(r"^(\d+) h r=(\d+) (.*)$")
 
 
 def parse(log):
-    """returns (harness events incl. hooks, wire events) in log order"""
+    """returns (harness events incl. hooks, wire events) in log order.  Ranks are YGM ranks: when the communicator is not
+    MPI_COMM_WORLD (scenario param subcomm) the process index of the log is mapped through the harness's `ID` events."""
+    ygm_of = {}
+    for line in log:
+        m = _H.match(line)
+        if m and m.group(3).startswith("ID "):
+            ygm_of[int(m.group(2))] = int(m.group(3).split()[1])
+    ident = all(k == v for k, v in ygm_of.items())
     hev, wire = [], []
     for i, line in enumerate(log):
         m = _H.match(line)
@@ -246,14 +257,20 @@ def parse(log):
             w = m.group(3).split(" ")
             if w[0] == "k" and len(w) < 5:
                 continue          # truncated line of a rank that died
+            rr = int(m.group(2))
+            rr = rr if ident else ygm_of.get(rr, rr)
             if w[0] == "k":
-                hev.append(Ev(i, int(m.group(2)), "k:" + w[1], w[2:], line))
-            else:
-                hev.append(Ev(i, int(m.group(2)), w[0], w[1:], line))
+                hev.append(Ev(i, rr, "k:" + w[1], w[2:], line))
+            elif w[0] != "ID":
+                hev.append(Ev(i, rr, w[0], w[1:], line))
         else:
             sp = line.split(" ", 2)
             if len(sp) >= 2:
                 d = C.kv(sp[2]) if len(sp) > 2 else {}
+                if not ident:
+                    for key in ("r", "dst", "src"):
+                        if key in d and d[key].lstrip("-").isdigit():
+                            d[key] = str(ygm_of.get(int(d[key]), int(d[key])))
                 wire.append((i, sp[1], d))
     return hev, wire
 
